@@ -36,6 +36,7 @@ EXTENDS Integers, Sequences, FiniteSets, TLC
 
 CONSTANTS Backend,      \* "bolt" | "badger"
           MetaAlways,   \* bulk writers always rewrite the metadata (the repaired code)
+          PointMeta,    \* UpdateById rewrites the metadata too (the repaired code)
           Gs,           \* goroutines
           IdSet, Vals   \* document ids, values of the field x
 
@@ -58,6 +59,14 @@ Present(s) == {i \in IdSet : s.docs[i] # None}
 (* reads, writes, next state and result of an operation evaluated on state s *)
 Sel(s, a) == {i \in Present(s) : s.docs[i] = a}
 
+\* an index scan of the value a reads, besides the entries of a, the first entry past them (that is
+\* how it notices the end of its range)
+PastRange(s, a) ==
+    LET later == {e \in s.ents : e[1] > a} IN
+    IF later = {} THEN {}
+    ELSE LET m == CHOOSE e \in later : \A f \in later : e[1] < f[1] \/ (e[1] = f[1] /\ e[2] <= f[2])
+         IN {<<"E", m[1], m[2]>>}
+
 Effect(op, s) ==
     CASE op[1] = "Insert" ->          \* <<"Insert", id, v>>
             LET id == op[2] v == op[3] IN
@@ -73,7 +82,8 @@ Effect(op, s) ==
             IF s.docs[id] = None
             THEN [reads |-> {<<"M">>, <<"D", id>>}, writes |-> {}, new |-> s, res |-> "nodoc"]
             ELSE [reads |-> {<<"M">>, <<"D", id>>},
-                  writes |-> {<<"D", id>>} \cup (IF s.idx THEN {<<"E", s.docs[id], id>>, <<"E", v, id>>} ELSE {}),
+                  writes |-> {<<"D", id>>} \cup (IF s.idx THEN {<<"E", s.docs[id], id>>, <<"E", v, id>>} ELSE {})
+                             \cup (IF PointMeta THEN {<<"M">>} ELSE {}),
                   new |-> [s EXCEPT !.docs[id] = v,
                                     !.ents = IF s.idx THEN (@ \ {<<s.docs[id], id>>}) \cup {<<v, id>>} ELSE @],
                   res |-> "ok"]
@@ -81,7 +91,7 @@ Effect(op, s) ==
             LET a == op[2] b == op[3]
                 sel == Sel(s, a)
                 \* through the index: the entries of the range and their documents; else a full scan
-                rd  == IF s.idx THEN {<<"E", a, i>> : i \in sel} \cup {<<"D", i>> : i \in sel}
+                rd  == IF s.idx THEN {<<"E", a, i>> : i \in sel} \cup {<<"D", i>> : i \in sel} \cup PastRange(s, a)
                        ELSE {<<"D", i>> : i \in Present(s)}
             IN [reads |-> {<<"M">>} \cup rd,
                 writes |-> {<<"D", i>> : i \in sel}
@@ -93,7 +103,7 @@ Effect(op, s) ==
       [] op[1] = "DeleteWhere" ->     \* <<"DeleteWhere", a>>
             LET a == op[2]
                 sel == Sel(s, a)
-                rd  == IF s.idx THEN {<<"E", a, i>> : i \in sel} \cup {<<"D", i>> : i \in sel}
+                rd  == IF s.idx THEN {<<"E", a, i>> : i \in sel} \cup {<<"D", i>> : i \in sel} \cup PastRange(s, a)
                        ELSE {<<"D", i>> : i \in Present(s)}
             IN [reads |-> {<<"M">>} \cup rd,
                 writes |-> {<<"D", i>> : i \in sel} \cup (IF s.idx THEN {<<"E", a, i>> : i \in sel} ELSE {})
